@@ -587,7 +587,11 @@ pub fn run_sign(scn: &Scenario, ctx: &mut Ctx) {
                 // distinct keys from the universe; threshold 1..n+1 or None
                 let uni = universe(thorough);
                 let mut r = SimRng::new(st.arg(0));
-                let n = r.range(1, 5) as usize;
+                // (now and then the empty key list: no threshold of one or more can be met by it)
+                let n = if st.arg(0) % 8 == 5 { 0 } else { r.range(1, 5) as usize };
+                if n == 0 {
+                    ctx.probe("empty-key-list");
+                }
                 let mut ks: Vec<(u8, u8)> = uni.clone();
                 r.shuffle(&mut ks);
                 ks.truncate(n);
@@ -625,6 +629,11 @@ pub fn run_sign(scn: &Scenario, ctx: &mut Ctx) {
                             ctx.violate("C09.threshold", format!("verify_signatures_from_threshold({}) disagrees: {} of {} signed", t, count, n));
                         }
                     }
+                }
+                if n == 0 {
+                    // no threshold given and no keys listed is a threshold of zero: outside the property's quantifier
+                    ctx.t("S.Threshold n=0");
+                    continue;
                 }
                 ctx.checked();
                 match guarded(|| env.has_signatures_from(&refs)) {
@@ -1387,29 +1396,47 @@ pub fn run_sskr(scn: &Scenario, ctx: &mut Ctx) {
                 let s = (st.arg(3) % flat.len() as u64) as usize;
                 let holder = flat[s].1.clone();
                 let spec2 = SSKRSpec::new(1, vec![SSKRGroupSpec::new(2, 3).unwrap()]).unwrap();
-                let second: Vec<Envelope> = match guarded(|| holder.sskr_split_flattened(&spec2, &ck)) {
-                    Ok(Ok(x)) => x,
-                    Ok(Err(e)) => {
-                        ctx.checked();
-                        ctx.violate("C11.split", format!("splitting a share envelope again failed: {}", e));
-                        continue;
-                    }
-                    Err(p) => {
-                        ctx.violate_sig("C11.no-panic", format!("sskr_split of a share envelope panicked: {}", p), p);
-                        continue;
-                    }
-                };
-                let second: Vec<Envelope> = second.iter().filter_map(|e| transmit(ctx, e)).collect();
-                if second.len() != 3 {
-                    ctx.violate("C11.split", "the second split did not return three share envelopes that survive transport".to_string());
-                    continue;
-                }
                 let old_alone = policy_met(&groups, gt, &[flat[s].0]);
                 // the two splits draw their 16-bit identifiers independently: once in 65 536 they coincide, the shares of
-                // both splits then land in one group that cannot combine, and nothing is promised (as in K.Foreign)
+                // both splits then land in one group that cannot combine, and nothing is promised for that split (as in
+                // K.Foreign): the custodian splits again. Four independent splits that all draw the first split's
+                // identifier (2^-64) mean the identifiers are not drawn afresh, and no re-split can ever be joined.
                 let ids_of = |e: &Envelope| -> BTreeSet<u16> { e.assertions_with_predicate(known_values::SSKR_SHARE).iter().filter_map(|a| a.as_object()).filter_map(|o| o.extract_subject::<bc_components::SSKRShare>().ok()).map(|sh| sh.identifier()).collect() };
-                if ids_of(&second[0]).len() < 2 {
+                let mut second: Vec<Envelope> = vec![];
+                let mut broken = false;
+                for attempt in 0..4 {
+                    let pieces: Vec<Envelope> = match guarded(|| holder.sskr_split_flattened(&spec2, &ck)) {
+                        Ok(Ok(x)) => x,
+                        Ok(Err(e)) => {
+                            ctx.checked();
+                            ctx.violate("C11.split", format!("splitting a share envelope again failed: {}", e));
+                            broken = true;
+                            break;
+                        }
+                        Err(p) => {
+                            ctx.violate_sig("C11.no-panic", format!("sskr_split of a share envelope panicked: {}", p), p);
+                            broken = true;
+                            break;
+                        }
+                    };
+                    let pieces: Vec<Envelope> = pieces.iter().filter_map(|e| transmit(ctx, e)).collect();
+                    if pieces.len() != 3 {
+                        ctx.violate("C11.split", "the second split did not return three share envelopes that survive transport".to_string());
+                        broken = true;
+                        break;
+                    }
+                    if ids_of(&pieces[0]).len() >= 2 {
+                        second = pieces;
+                        break;
+                    }
                     ctx.probe("identifier-collision");
+                    if attempt == 3 {
+                        ctx.checked();
+                        ctx.violate("C11.iff", "four independent splits of a share envelope all drew the identifier of the first split: a quorum of the pieces can never be joined (each piece carries two shares under one identifier)".to_string());
+                        broken = true;
+                    }
+                }
+                if broken || second.is_empty() {
                     continue;
                 }
                 for mask in 1u32..8 {
